@@ -284,6 +284,23 @@ func (e *Exec) reflectTypeMethod(st *State, fr *Frame, cc *ssa.CallCommon, recv 
 			return
 		}
 		r := UF("rt_elem", SInt, rt)
+		if srt := st.Simp(rt); srt.IntV != nil && srt.IntV.IsInt64() {
+			// a literal type: its element type is known
+			if T, ok := typeByCode[int(srt.IntV.Int64())]; ok {
+				switch u := T.Underlying().(type) {
+				case *types.Pointer:
+					r = typeCodeTerm(u.Elem())
+				case *types.Slice:
+					r = typeCodeTerm(u.Elem())
+				case *types.Array:
+					r = typeCodeTerm(u.Elem())
+				case *types.Map:
+					r = typeCodeTerm(u.Elem())
+				case *types.Chan:
+					r = typeCodeTerm(u.Elem())
+				}
+			}
+		}
 		st.Assume(Not(Eq(r, IntLit(0))))
 		k(st, []*Value{valOf(sig.Results().At(0).Type(), r)})
 		return
